@@ -74,6 +74,12 @@ CLAIMS = {
         "technique": "contract-based deductive verification: relational (twin) obligation over stage-1 symbolic execution of both emitters",
         "design_ref": "DESIGN.md §6 C17",
     },
+    "C14": {
+        "level": "Proof of the struct-field half: tags carry the exact property name for every configured tag, JSONName is the property name, the final base name (after an explicit identifier override) is the one recorded for de-duplication.",
+        "note": "Identifier synthesis itself is added as the rune-array contracts land.",
+        "technique": "contract-based deductive verification: VCs from go/ssa discharged by SMT",
+        "design_ref": "DESIGN.md §6 C14",
+    },
 }
 
-NOT_APPLICABLE = {p: PENDING for p in ["C08", "C10", "C12", "C13", "C14", "C16", "C18", "C20"]}
+NOT_APPLICABLE = {p: PENDING for p in ["C08", "C10", "C12", "C13", "C16", "C18", "C20"]}
